@@ -15,7 +15,12 @@ EXPR = {"int": "7", "float": "2.5", "str": "'hi'", "bool": "True", "none": "None
         "tuplerep": "(1, n) * 3", "hugerep": "(1, 'a') * 99999999999999999999", "strrep": "'ab' * 1000000000000",
         # subscripts by signed and out-of-range literals (the program would fail at run time: the analysis must not)
         "tupleneg": "(1, n)[-3]", "tuplelast": "(1, n)[-1]", "tuplefar": "(1, n)[7]", "emptyneg": "()[-1]",
-        "dictneg": "{-1: n}[-1]", "strneg": "s[-9]"}
+        "dictneg": "{-1: n}[-1]", "strneg": "s[-9]",
+        # things that are called although they are no functions (or have no name): TIFA reports, it does not fail
+        "litmethod": "'a'.foo()", "lambdacall0": "(lambda: 1)()", "elemcall": "xs[0]()", "numcall": "n()", "callcall": "len(xs)()",
+        # operands the operator table does not know; unpacking inside a display
+        "startuple": "(*xs, 3)", "starsum": "(*xs, 3) + (5,)", "deepnest": "((((((((((n,),),),),),),),),),)",
+        "slicestep": "xs[::2]", "sliceof": "(1, 'a', 2.5)[1:]", "condslice": "(xs if n else s)[0:1]"}
 STMT = {"assign": "v = {E}\nprint(v)", "augassign": "acc = {E}\nacc += {E}\nprint(acc)", "exprstmt": "print({E})",
         "if": "if {E}:\n    print(1)\nelse:\n    print(2)", "while": "k = 0\nwhile k < 2:\n    v = {E}\n    k += 1\n    print(v)",
         "for": "for i in xs:\n    v = {E}\n    print(v, i)", "defcall": "def f(a):\n    return {E}\nprint(f(1))",
